@@ -18,6 +18,11 @@ Hypothesis draws - and every list it shrinks to - is a valid program.
     ["on", "private", <constructor op>]           the constructor with the atoms of the private table
                                                   (formula(str, table=T), T's atoms in dict/sequence)
     ["chtable", i, "private"|"public"]            vars[i].change_table(that table)   (in place)
+    ["empty", how, name, density]                 the empty formula: how = "''" formula(''), "()" formula(),
+                                                  "None" formula(None), "Formula()", "[]" formula([]), "{}" formula({})
+
+With zeros=True the trees of "str" constructors carry counts written as zero ('0.', '0.0', '.0', '.00': the
+zero spellings of the documented grammar) in any position; the model count is then 0.
 
 Every variable lives on one table; the second operand of + and += is chosen (by its index) among the
 variables living on the table of the first.
@@ -100,8 +105,54 @@ def nested(pool, depth=2, count=None):
                      ).map(lambda t: {"t": t[0], "p": t[1]})
 
 
-def constructor(pool, count=None, tree=None, tables=False):
+ZEROS = ["0.", "0.0", ".0", ".00"]
+EMPTIES = ["''", "()", "None", "Formula()", "[]", "{}"]
+
+
+def _count_slots(tree):
+    slots = []
+
+    def walk(gs):
+        for g in gs:
+            if g[0] == "i":
+                slots.append((g, 1))
+                for a in g[2]:
+                    slots.append((a, 3))
+            else:
+                slots.append((g, 3))
+                walk(g[1])
+    walk(tree["g"])
+    return slots
+
+
+def _with_zeros(pool, tree, picks):
+    if not picks:
+        return tree
+    import json
+    tree = json.loads(json.dumps(tree))
+    slots = _count_slots(tree)
+    for k, z in picks:
+        c, i = slots[k % len(slots)]
+        c[i] = z
+    if tree["d"] is not None and not any(fa.composition(pool, tree).values()):
+        tree["d"] = None          # a density for nothing at all is not asked for
+    return tree
+
+
+def zero_counts(pool, tree):
+    """Trees in which up to two counts (atom subscript, group multiplier, leading multiplier) are written as zero."""
+    picks = st.one_of(st.just([]), st.lists(st.tuples(st.integers(0, 60), st.sampled_from(ZEROS)).map(list),
+                                            min_size=1, max_size=2))
+    return st.tuples(tree, picks).map(lambda t: _with_zeros(pool, t[0], t[1]))
+
+
+def constructor(pool, count=None, tree=None, tables=False, zeros=False, empties=False):
+    if zeros:
+        tree = zero_counts(pool, tree if tree is not None else fa.compound(pool, depth=2, max_groups=3, max_atoms=3))
     base = _constructor(pool, count, tree)
+    if empties:
+        empty = st.tuples(st.just("empty"), st.sampled_from(EMPTIES), name(), density()).map(list)
+        base = st.tuples(st.integers(0, 7), base, empty).map(lambda t: t[2] if t[0] == 0 else t[1])
     if not tables:
         return base
     # (one_of drops repeated branches, so the share is set by a drawn flag: 1 constructor in 5 is private)
@@ -157,8 +208,8 @@ def _operator(mult=None):
     )
 
 
-def history(pool, max_steps=30, count=None, mult=None, tree=None, tables=False):
-    c = constructor(pool, count, tree, tables)
+def history(pool, max_steps=30, count=None, mult=None, tree=None, tables=False, zeros=False, empties=False):
+    c = constructor(pool, count, tree, tables, zeros, empties)
     o = operator(mult, tables)
     step = st.one_of(o, o, o, c)
     rest = max_steps - 3
@@ -269,7 +320,7 @@ def interpret(ops, observer=None, before=None, mag=(MAG_LO, MAG_HI)):
                 which, op = op[1], op[2]
                 kind = op[0]
                 flags["kinds"].append("on-private-table")
-            if kind in ("str", "atom", "dict", "seq"):
+            if kind in ("str", "atom", "dict", "seq", "empty"):
                 ctor_ops.append((which, op))
         table = E["tables"][which]
         st_ = Step()
@@ -304,8 +355,30 @@ def interpret(ops, observer=None, before=None, mag=(MAG_LO, MAG_HI)):
             kw = {} if which == "public" else {"table": table}
             f = formula(s, name=op[2], **kw) if op[2] is not None else formula(s, **kw)
             v = Var(f, fa.composition(pool, op[1]), "str", which)
+            if any(c[i] in ZEROS for c, i in _count_slots(op[1])):
+                flags["kinds"].append("zero-count-in-string")
             for a_, _ in fa.atoms_of(op[1]["g"]):
                 flags["classes"].add(spec_class(a_[1]))
+        elif kind == "empty":
+            kw = {}
+            if op[2] is not None:
+                kw["name"] = op[2]
+            if op[3] is not None:
+                kw["density"] = op[3]
+            how = op[1]
+            if how == "''":
+                f = formula('', **(kw if which == "public" else dict(kw, table=table)))
+            elif how == "()":
+                f = formula(**kw)
+            elif how == "None":
+                f = formula(None, **kw)
+            elif how == "Formula()":
+                f = E["pt"].formulas.Formula(**kw)
+            elif how == "[]":
+                f = formula([], **kw)
+            else:
+                f = formula({}, **kw)
+            v = Var(f, {}, "empty", which)
         elif kind == "atom":
             f = formula(resolve(table, op[1]))
             v = Var(f, {spec_key(pool, op[1]): Fraction(1)}, "atom", which)
